@@ -89,7 +89,8 @@ def hosvd(  # noqa: PLR0912,PLR0913,PLR0915
     if verbosity > 0:
         print("Computing HOSVD...\n")
 
-    normxsqr = (input_tensor**2).collapse()
+    # Sum of squares in floating point: integer-typed data must not wrap around
+    normxsqr = (ttb.tensor(input_tensor.double(), copy=False) ** 2).collapse()
     eigsumthresh = ((tol**2) * normxsqr) / d
 
     if verbosity > 2:
